@@ -69,11 +69,20 @@ def build_seed(k):
         cfg = Cfg(3, rr='1.09')
     elif k == 7:
         cfg = Cfg(3, joliet=3, rr='1.12', udf=True)
+    elif k == 9:
+        cfg = Cfg(3)
     else:
         cfg = Cfg(2, rr='1.09', joliet=2)
     h = common.History(cfg, 1000 + k, 'grow', max_size=3000)
+    if k == 9:
+        # sibling directories A01..A16 with two sub-directories each: the raw material for a
+        # hostile directory graph without cycles (see the 'dag' fault)
+        for a in range(1, 17):
+            h.apply({'op': 'add_directory', 'iso_path': '/A%02d' % a})
+            h.apply({'op': 'add_directory', 'iso_path': '/A%02d/X' % a})
+            h.apply({'op': 'add_directory', 'iso_path': '/A%02d/Y' % a})
     h.gen.uniq = 0
-    n = [25, 40, 30, 35, 30, 20, 20, 60, 90][k]
+    n = [25, 40, 30, 35, 30, 20, 20, 60, 90, 3][k]
     if k == 6:
         # deep relocated tree
         p = ''
@@ -120,6 +129,16 @@ def build_seed(k):
         if kind.endswith('-data'):
             continue
         ranges.append((kind, s, min(e, len(data))))
+    rr_ = dec.get('susp')
+    if rr_ is not None and getattr(rr_, 'present', False):
+        # System Use entries: the 4-byte header (signature, length, version) of a few entries of
+        # every signature that occurs, as structures of their own
+        per_sig = {}
+        for path_, ent_ in sorted(rr_.entries.items()):
+            for sig_, off_ in zip(ent_.sigs, ent_.offsets):
+                if per_sig.get(sig_, 0) < 3 and 0 < off_ < len(data) - 4:
+                    per_sig[sig_] = per_sig.get(sig_, 0) + 1
+                    ranges.append(('susp-%s' % sig_, off_, off_ + 4))
     et = dec['eltorito']
     if et.present:
         # boot files are parsed too: the boot info table (bytes 8..64 of a boot file) is
@@ -147,7 +166,27 @@ def seed(k):
     return _seeds[k]
 
 
-NSEEDS = 9
+NSEEDS = 10
+
+
+def dag_fault(data, levels):
+    """Seed image 9 with the records X and Y of A_k repointed (extent and length, both byte
+    orders) at directory A_(k+1), for k = 1..levels: an acyclic graph with 2^levels paths."""
+    from harness.indep import ecma119
+    dec = ecma119.decode(data)
+    b = bytearray(data)
+    for a in range(1, levels + 1):
+        src = dec.pvd.dirs.get('/A%02d' % a)
+        dst = dec.pvd.dirs.get('/A%02d' % (a + 1))
+        if src is None or dst is None:
+            break
+        for r in src.records:
+            if r.ident in (b'X', b'Y'):
+                struct.pack_into('<L', b, r.offset + 2, dst.extent)
+                struct.pack_into('>L', b, r.offset + 6, dst.extent)
+                struct.pack_into('<L', b, r.offset + 10, dst.data_length)
+                struct.pack_into('>L', b, r.offset + 14, dst.data_length)
+    return bytes(b)
 VALUES = ['zero', 'one', 'max', 'max-1', 'sign', 'self', 'other', 'beyond', 'flip', 'inc', 'dec']
 
 
@@ -293,11 +332,21 @@ def sweep_list(k):
             if e_ - s_ > 128 or (kind, s_) in seen:
                 continue
             seen.add((kind, s_))
+            if kind.startswith('susp-'):
+                # the length byte of a System Use entry a little shorter / longer than it is
+                cur = data[s_ + 2]
+                for v in range(max(0, cur - 9), min(255, cur + 9) + 1):
+                    if v != cur:
+                        out.append((kind, s_ + 2, 1, v))
+                out.append((kind, s_ + 3, 1, 0xff))
+                continue
             for off in range(s_, e_):
                 out.append((kind, off, 1, 0xff))
                 out.append((kind, off, 1, 0x7f))
                 if (off - s_) % 4 == 0 and off + 4 <= len(data):
                     out.append((kind, off, 4, 0xffffffff))
+        if k == 9:
+            out = [('dag', lv, 0, 0) for lv in (2, 5, 9, 12, 15)] + out
         _sweeps[k] = out
     return _sweeps[k]
 
@@ -305,7 +354,9 @@ def sweep_list(k):
 def run_fault(k, cs, counters, sweep=None):
     name, data, ranges = seed(k)
     rng = random.Random(cs)
-    if sweep is not None:
+    if sweep is not None and sweep[0] == 'dag':
+        mutated, desc = dag_fault(data, sweep[1]), {'fault': 'dag', 'structure': 'iso-dir', 'levels': sweep[1]}
+    elif sweep is not None:
         kind, off, width, val = sweep
         b = bytearray(data)
         b[off:off + width] = val.to_bytes(width, 'little')
